@@ -49,6 +49,7 @@ pub struct OpW {
     pub debug_fmt: u32,
     pub handle: u32,
     pub hot_gets: u32,
+    pub read_queue_probe: u32,
 }
 
 impl Default for OpW {
@@ -75,6 +76,7 @@ impl Default for OpW {
             debug_fmt: 1,
             handle: 2,
             hot_gets: 0,
+            read_queue_probe: 0,
         }
     }
 }
@@ -127,6 +129,7 @@ pub fn profile_for(prop: &str, thorough: bool) -> Profile {
     };
     match prop {
         "C01" => {
+            p.w.read_queue_probe = 1;
             p.w.iter_advance = 5;
             p.w.burst = 1;
             p.w.fresh_lookup = 3;
@@ -151,6 +154,7 @@ pub fn profile_for(prop: &str, thorough: bool) -> Profile {
             p.w.synced_insert = 6;
         }
         "C05" => {
+            p.w.read_queue_probe = 2;
             p.w.iter_advance = 6;
             p.w.burst = 2;
             p.w.fresh_lookup = 7;
@@ -161,6 +165,7 @@ pub fn profile_for(prop: &str, thorough: bool) -> Profile {
             p.w.contains = 9;
         }
         "C06" => {
+            p.w.read_queue_probe = 2;
             p.w.iter_advance = 6;
             p.w.burst = 2;
             p.w.fresh_lookup = 7;
@@ -299,6 +304,9 @@ pub enum RawOp {
     Handle { sel: u8 },
     /// many gets of one key in a row (enough of them cross an aging step of the sketch)
     HotGets { k: u16, n: u8 },
+    /// sync(); about one read-queue flush point of gets of `k2` with no sync in between; step the
+    /// clock to the deadline of `k`; get(k)
+    ReadQueueProbe { k: u16, k2: u16, n: u8, which: bool },
 }
 
 const DURS: [Option<u64>; 9] = [
@@ -376,6 +384,7 @@ fn raw_op(w: &OpW) -> BoxedStrategy<RawOp> {
     add(w.debug_fmt, Just(RawOp::DebugFmt).boxed());
     add(w.handle, any::<u8>().prop_map(|sel| RawOp::Handle { sel }).boxed());
     add(w.hot_gets, (any::<u16>(), any::<u8>()).prop_map(|(k, n)| RawOp::HotGets { k, n }).boxed());
+    add(w.read_queue_probe, (any::<u16>(), any::<u16>(), any::<u8>(), any::<bool>()).prop_map(|(k, k2, n, which)| RawOp::ReadQueueProbe { k, k2, n, which }).boxed());
     add(w.insert_batch, (any::<[(u16, u8); 4]>(), any::<u8>()).prop_map(|(items, n)| RawOp::InsertBatch { items, n }).boxed());
     add(w.iter_advance, (any::<u8>(), any::<u8>()).prop_map(|(after, sel)| RawOp::IterAdvance { after, sel }).boxed());
     add(w.fresh_lookup, (any::<u16>(), any::<bool>()).prop_map(|(sel, contains)| RawOp::FreshLookup { sel, contains }).boxed());
@@ -583,6 +592,15 @@ pub fn build_case(p: &Profile, rc: RawCfg, raw_ops: Vec<RawOp>) -> Case {
                 for _ in 0..n {
                     push(&mut ops, Op::Get { k });
                 }
+            }
+            RawOp::ReadQueueProbe { k, k2, n, which } => {
+                ops.push(Op::Sync);
+                let n = [63usize, 64, 65, 100][idx(n as u32, 256, 4) as usize];
+                for _ in 0..n {
+                    ops.push(Op::Get { k: kmap(k2) });
+                }
+                ops.push(Op::AdvanceTo { k: kmap(k), which: if which { Which::Ttl } else { Which::Tti }, delta: 0 });
+                ops.push(Op::Get { k: kmap(k) });
             }
             RawOp::InsertBatch { items, n } => {
                 if kind == Kind::Sync && !sync_with_expiry {
